@@ -4,7 +4,9 @@ import itertools
 import os
 
 import peg
-from rulelib import owner
+from rulelib import SHIPPED, arm_regions, cfg_of, defs_of, enum_switches, owner, short
+from dataflow import const_value, flow_back
+from facts import canon
 
 REPO = os.environ.get("BRUSH_REPO", "/repo")
 
@@ -130,6 +132,8 @@ def run(prog, chk):
                     chk.ok("R6.2", "ordered:%s>%s" % (max(sa, key=len), max(sb, key=len)), "longer operator listed first (lines %s < %s)" % (la, lb))
         chk.floor("R6.2", "longer-before-shorter operator pairs", ordered, 8)
 
+    removal_rules(prog, chk)
+
     # ---- R6.1 scoped inventory ------------------------------------------------------------------------
     chk.rule("R6.1", "operator implementations: every panic-capable construct (overflow / bounds / index / unwrap) is guarded, reviewed, "
                      "or a known finding (scoped view of C01 R1.1)")
@@ -141,3 +145,170 @@ def run(prog, chk):
     found = c01.inventory(prog, chk, "R6.1", scope=lambda fn: fn in R61_SCOPE or any(fn.startswith(p + "::{") for p in R61_SCOPE),
                           pid="C06")
     chk.floor("R6.1", "operator implementation bodies", found["bodies"], 6)
+
+
+REMOVAL_VARIANTS = {
+    # ParameterExpr variant → (side, extent)
+    "RemoveSmallestSuffixPattern": ("suffix", "smallest"),
+    "RemoveLargestSuffixPattern": ("suffix", "largest"),
+    "RemoveSmallestPrefixPattern": ("prefix", "smallest"),
+    "RemoveLargestPrefixPattern": ("prefix", "largest"),
+}
+REGEX_EXTENT_APIS = ("::find", "::find_from_pos", "::find_iter", "::captures", "::captures_iter", "::captures_from_pos",
+                     "::shortest_match", "::replace", "::replace_all", "::replacen", "::split", "::splitn")
+EXPAND_EXPR = "brush_core::expansion::WordExpander::expand_parameter_expr"
+
+
+def _nested_bodies(prog, b, region=None, depth=3):
+    """closure / coroutine bodies constructed in `region` blocks of b (transitively)"""
+    out = []
+    if depth == 0:
+        return out
+    for bl in b.blocks:
+        if region is not None and bl.idx not in region:
+            continue
+        for st in bl.stmts:
+            if st.kind == 'a' and st.rv.kind == 'agg' and st.rv.raw.get("ak") in ("closure", "coroutine", "coroutine_closure"):
+                inner = prog.body(canon(st.rv.raw["def"]))
+                if inner is not None:
+                    out.append(inner)
+                    out += _nested_bodies(prog, inner, None, depth - 1)
+    # async closures: the coroutine body is a child of the closure def
+    for n, x in prog.bodies.items():
+        if x.parent and any(x.parent == o.name for o in out) and x not in out:
+            out.append(x)
+    return out
+
+
+def _slice_kinds(b, d, op):
+    """how is the &str operand carved out of something: list of (range ADT, [field operands]) for every str Index call on its flow"""
+    out = []
+    for f in flow_back(b, d, op):
+        if f.kind == 'call' and (f.node.best_callee() or "").endswith("core::ops::index::Index>::index") and len(f.node.args) >= 2:
+            for g in flow_back(b, d, f.node.args[1]):
+                if g.kind == 'agg' and (g.node.raw.get("adt") or "").startswith("core::ops::range::"):
+                    out.append((g.node.raw["adt"].rsplit("::", 1)[-1], g.node))
+    return out
+
+
+def removal_rules(prog, chk, R3="R6.3", R4="R6.4", declare=True):
+    if declare:
+        chk.rule(R4, "the smallest-match removal functions test the empty prefix/suffix (explicit is_match(\"\") or a candidate bound that can be 0 / len)")
+    chk.rule(R3, "${v#p} ${v##p} ${v%p} ${v%%p}: each operator's arm calls one removal function; that function compiles the pattern with "
+                     "both anchors, decides extents only by is_match over candidate sub-slices of the value (never by a leftmost-first "
+                     "find/captures), tests prefixes as s[0..k] / suffixes as s[k..], and for largest-prefix / smallest-suffix walks the "
+                     "candidates in reverse")
+    eb = prog.impl_body(EXPAND_EXPR)
+    if not chk.anchor(R3, EXPAND_EXPR, eb):
+        return
+    sws = enum_switches(prog, eb, "brush_parser::word::ParameterExpr")
+    if not sws:
+        chk.fail(R3, EXPAND_EXPR, "switch-missing", "no switch on ParameterExpr")
+        return
+    sbb, m, other, rest, _ = max(sws, key=lambda x: len(x[1]))
+    regions = arm_regions(eb, sbb, dict(m))
+    role = {}
+    for var, (side, extent) in REMOVAL_VARIANTS.items():
+        if var not in regions:
+            chk.fail(R3, EXPAND_EXPR, "arm-missing:" + var, "no arm for ParameterExpr::%s" % var)
+            continue
+        cands = set()
+        for nb in [eb] + _nested_bodies(prog, eb, regions[var]):
+            for bb, t in nb.calls():
+                if nb is eb and bb not in regions[var]:
+                    continue
+                cal = t.best_callee() or ""
+                cb = prog.body(cal)
+                if cb is not None and cb.crate in SHIPPED and "Pattern" in " ".join(cb.local_ty(i) for i in range(1, cb.argc + 1)) \
+                        and cb.ret.startswith("core::result::Result<&str"):
+                    cands.add(cal)
+        if len(cands) != 1:
+            chk.fail(R3, EXPAND_EXPR, "removal-callee:" + var, "arm %s calls %d candidate removal functions (%s); expected exactly one (pattern, &str) → Result<&str>"
+                     % (var, len(cands), sorted(cands)))
+            continue
+        role[var] = cands.pop()
+    if len(set(role.values())) != len(role):
+        chk.fail(R3, EXPAND_EXPR, "removal-callee-shared", "two removal operators call the same function: %s" % role)
+    for var, fn in sorted(role.items()):
+        side, extent = REMOVAL_VARIANTS[var]
+        b = prog.body(fn)
+        c = cfg_of(b)
+        d = defs_of(b)
+        tag = "%s-%s" % (extent, side)
+        # (a) anchors
+        tor = [(bb, t) for bb, t in b.calls() if (t.best_callee() or "").endswith("Pattern::to_regex")]
+        if not tor:
+            chk.fail(R3, fn, "no-to_regex:" + tag, "%s does not compile its pattern with Pattern::to_regex" % fn)
+            continue
+        for bb, t in tor:
+            a1, a2 = const_value(b, d, t.args[1]), const_value(b, d, t.args[2])
+            if a1 == 1 and a2 == 1:
+                chk.ok(R3, "anchored:" + tag, "to_regex(true, true): a candidate matches only as a whole", function=fn)
+            else:
+                chk.fail(R3, fn, "candidate-not-fully-anchored:" + tag,
+                         "%s compiles the pattern with anchors (%s, %s) at %s: a candidate slice would 'match' when only part of it does, so the "
+                         "removed text is not a %s matching p" % (fn, a1, a2, b.loc(t.line), side))
+        # (b) no leftmost-first extent API
+        bad = [(bb, t) for bb, t in b.calls() if "egex" in (t.best_callee() or "") and (t.best_callee() or "").endswith(REGEX_EXTENT_APIS)]
+        if bad:
+            chk.fail(R3, fn, "extent-from-regex-find:" + tag,
+                     "%s takes the extent of the match from %s at %s: the engine returns the first alternative that succeeds (leftmost-first), not the "
+                     "%s match — `${v%s@(a|ab)}` style patterns remove the wrong amount"
+                     % (fn, short(bad[0][1].best_callee()), b.loc(bad[0][1].line), extent, {"prefix": "#", "suffix": "%"}[side] * (2 if extent == "largest" else 1)))
+        else:
+            chk.ok(R3, "no-find:" + tag, "no find/captures/replace call: extents come from candidate enumeration", function=fn)
+        # (c) candidate tests
+        tests = [(bb, t) for bb, t in b.calls() if (t.best_callee() or "").endswith("Regex::is_match")]
+        loops = c.source_loops()
+        inloop = [(bb, t) for bb, t in tests if any(bb in blks for blks in loops.values())]
+        if not inloop:
+            chk.fail(R3, fn, "no-candidate-loop:" + tag, "%s has no is_match call inside a loop over candidate slices" % fn)
+            continue
+        for bb, t in inloop:
+            kinds = _slice_kinds(b, d, t.args[1])
+            names = sorted({k for k, _ in kinds})
+            if side == "prefix":
+                good = [n for k, n in kinds if k in ("Range", "RangeTo", "RangeInclusive", "RangeToInclusive")
+                        and (k.startswith("RangeTo") or const_value(b, d, n.ops[0]) == 0)]
+            else:
+                good = [n for k, n in kinds if k == "RangeFrom"]
+            if good:
+                chk.ok(R3, "candidate-shape:" + tag, "loop tests %s slices of the value (%s)" % (side, ",".join(names)), function=fn)
+            else:
+                chk.fail(R3, fn, "candidate-not-a-%s:%s" % (side, tag), "%s tests slices of kind %s at %s; a %s candidate is %s"
+                         % (fn, names or "?", b.loc(t.line), side, "s[0..k]" if side == "prefix" else "s[k..]"))
+            # direction, only for the early-return idiom
+            h = [hh for hh, blks in loops.items() if bb in blks][0]
+            nxt = [(xb, xt) for xb, xt in b.calls() if xb in loops[h] and (xt.best_callee() or xt.callee or "").endswith("Iterator>::next")]
+            rev = any("Rev<" in (xt.best_callee() or "") or "Rev<" in b.local_ty(xt.args[0].place.local if xt.args and xt.args[0].place is not None else 0) for xb, xt in nxt)
+            rev = rev or any((xt.best_callee() or "").endswith(("Iterator::rev", "DoubleEndedIterator::next_back", "DoubleEndedIterator>::next_back")) for _, xt in b.calls())
+            early = c.path(bb, c.return_blocks(), avoid=[h] + list(c.error_exit_blocks()), after=True) is not None
+            want_rev = (side, extent) in (("prefix", "largest"), ("suffix", "smallest"))
+            if not early or not nxt:
+                chk.ok(R3, "direction-undecided:" + tag, "not the first-match-returns idiom; walk direction not decided", nontrivial=False, function=fn)
+            elif rev == want_rev:
+                chk.ok(R3, "direction:" + tag, "first matching candidate returns; candidates walked %s" % ("longest-first" if extent == "largest" else "shortest-first"), function=fn)
+            else:
+                chk.fail(R3, fn, "walk-direction:" + tag,
+                         "%s returns at the first matching candidate but walks them %s: it removes the %s match, the operator asks for the %s"
+                         % (fn, "in reverse" if rev else "forwards", "smallest" if extent == "largest" else "largest", extent))
+        # R6.4 the empty candidate
+        if extent == "smallest":
+            empty = False
+            for bb, t in tests:
+                for f in flow_back(b, d, t.args[1]):
+                    if f.kind == 'const' and (f.node.string == "" or (f.node.string is None and f.node.value in ("", None) and (f.node.ty or "") == "&str" and repr(f.node).find("''") >= 0)):
+                        empty = True
+                for k, n in _slice_kinds(b, d, t.args[1]):
+                    bound = n.ops[-1] if side == "prefix" else n.ops[0]
+                    for g in flow_back(b, d, bound):
+                        if side == "prefix" and g.kind == 'const' and g.node.value == 0:
+                            empty = True
+                        if side == "suffix" and g.kind == 'call' and (g.node.best_callee() or "").endswith("str::len"):
+                            empty = True
+            if empty:
+                chk.ok(R4, "empty-candidate:" + tag, "the empty %s is among the tested candidates" % side, function=fn)
+            else:
+                chk.fail(R4, fn, "empty-candidate-missing:" + tag,
+                         "%s never tests the empty %s: a pattern that matches the empty string (`*`, `?(x)`) removes one character instead of nothing" % (fn, side))
+    chk.floor(R3, "removal operators resolved to functions", len(role), 4)
